@@ -1,6 +1,6 @@
 (* C05 -- Every command-line item is used exactly once or the run fails.
    Property theorems only; proofs live in Lemmas/. *)
-From BpafLemmas Require Import Tac Find RunSub.
+From BpafLemmas Require Import Tac Find RunSub Reach Ledger NoLoss C05Lemmas.
 
 (* A run yields a value only when no live item is left in the final scope. *)
 Theorem C05_ok_scope_consumed :
@@ -11,3 +11,78 @@ Check C05_ok_scope_consumed :
   forall env q inf s v s',
     run_sub env (Options q inf) s = (SOk v, s') -> first_item_ix s' = None.
 Print Assumptions C05_ok_scope_consumed.
+
+(* Exactly once: for EVERY parser (all combinators, any nesting; K is any predicate satisfied by
+   the consumers occurring in it), if run_subparser started on a well-formed state whose scope is
+   the whole line returns a value, then the ghost log grew by a duplicate-free list of entries
+   (index, consumer) that covers every item that was live at the start, each consumer being one of
+   the parser's own and accepting the token it claimed; and no item is live any more. *)
+Theorem C05_exactly_once :
+  forall K env o s v s',
+    okinds_ok K o -> lenwf s -> full_scope s ->
+    run_sub env o s = (SOk v, s') ->
+    exists l,
+      log s' = l ++ log s /\
+      NoDup (map fst l) /\
+      (forall i, live s i -> In i (map fst l)) /\
+      (forall i k, In (i, k) l ->
+         K k /\ live s i /\ forall a, nth_error (items s) i = Some a -> accepts k a = true) /\
+      (forall i, i < length (items s) -> dead s' i).
+Proof. exact exactly_once. Qed.
+Check C05_exactly_once :
+  forall K env o s v s',
+    okinds_ok K o -> lenwf s -> full_scope s ->
+    run_sub env o s = (SOk v, s') ->
+    exists l,
+      log s' = l ++ log s /\
+      NoDup (map fst l) /\
+      (forall i, live s i -> In i (map fst l)) /\
+      (forall i k, In (i, k) l ->
+         K k /\ live s i /\ forall a, nth_error (items s) i = Some a -> accepts k a = true) /\
+      (forall i, i < length (items s) -> dead s' i).
+Print Assumptions C05_exactly_once.
+
+(* An item that no consumer of the parser accepts makes the run fail: it can never yield a value. *)
+Theorem C05_foreign_item :
+  forall env o s i a,
+    okinds_ok (fun k => accepts k a = false) o -> lenwf s -> full_scope s ->
+    nth_error (items s) i = Some a -> live s i ->
+    forall v s', run_sub env o s <> (SOk v, s').
+Proof. exact foreign_item. Qed.
+Check C05_foreign_item :
+  forall env o s i a,
+    okinds_ok (fun k => accepts k a = false) o -> lenwf s -> full_scope s ->
+    nth_error (items s) i = Some a -> live s i ->
+    forall v s', run_sub env o s <> (SOk v, s').
+Print Assumptions C05_foreign_item.
+
+(* The same, from the argument vector: run_inner on any vector. The initial state built by
+   State::construct is well formed, its scope is the whole line, and exactly the `--` separator
+   (if any) is pre-consumed, by the tokenizer. *)
+Theorem C05_run_inner :
+  forall K feat env o name argv v s',
+    okinds_ok K o ->
+    run_inner_state feat env o name argv = (SOk v, s') ->
+    let n := length (items s') in
+    NoDup (map fst (log s')) /\
+    (forall i, i < n -> In i (map fst (log s'))) /\
+    (forall i k, In (i, k) (log s') ->
+       i < n /\ (k = KTok \/ (K k /\ forall a, nth_error (items s') i = Some a -> accepts k a = true))).
+Proof. exact run_inner_exactly_once. Qed.
+Check C05_run_inner :
+  forall K feat env o name argv v s',
+    okinds_ok K o ->
+    run_inner_state feat env o name argv = (SOk v, s') ->
+    let n := length (items s') in
+    NoDup (map fst (log s')) /\
+    (forall i, i < n -> In i (map fst (log s'))) /\
+    (forall i k, In (i, k) (log s') ->
+       i < n /\ (k = KTok \/ (K k /\ forall a, nth_error (items s') i = Some a -> accepts k a = true))).
+Print Assumptions C05_run_inner.
+
+(* non-vacuity: a concrete parser and line on which the hypotheses hold and a value is produced *)
+Example C05_witness :
+  exists v s', run_inner_state (mkFeat true true false) (fun _ => None) c05_example_parser None
+                               c05_example_argv = (SOk v, s')
+               /\ length (items s') = 4.
+Proof. eexists. eexists. split; [vm_compute; reflexivity|reflexivity]. Qed.
